@@ -2,6 +2,7 @@ package main
 
 import (
 	"fmt"
+	"go/types"
 	"strings"
 
 	"golang.org/x/tools/go/ssa"
@@ -120,6 +121,10 @@ func runC18(c *Ctx) {
 	c.count("rename-functions", nr)
 	c.floor("rename-functions", 1)
 
+	ruleNoMutationThroughAlias(c, "R18.d")
+	ruleNoStaleFieldSnapshot(c, "R18.e")
+	ruleFullPrecisionNumbers(c, "R18.f")
+
 	rid = "R18.c"
 	c.rule(rid, "the example handlers Set and HSet store the value parameter itself (no transformation) into the record / hash")
 	for _, name := range []string{"Set", "HSet"} {
@@ -199,4 +204,217 @@ func (p *Program) reachesCallNamedAny(fn *ssa.Function, names ...string) bool {
 		}
 	}
 	return false
+}
+
+// ruleNoMutationThroughAlias: R18.d — a range/read operation must not change what is stored.
+// A helper that writes into its slice parameter in place (reverse, sort, shuffle) may be handed
+// a private copy, never a reslice of a container's own field: the "copy" would be the stored
+// slice itself, and a read (ZRANGE ... REV) would reorder the set for every later command.
+func ruleNoMutationThroughAlias(c *Ctx, rid string) {
+	c.rule(rid, "in the example store, a function that stores into the elements of a slice parameter is never called with a (re)slice of a field of a container (List/Set/ZSet/...): in-place helpers only ever see private copies")
+	writesParam := func(f *ssa.Function, idx int) bool {
+		if f == nil || f.Blocks == nil || idx >= len(f.Params) {
+			return false
+		}
+		par := f.Params[idx]
+		found := false
+		allInstrs(f, func(ins ssa.Instruction) {
+			if st, ok := ins.(*ssa.Store); ok {
+				if ia, ok := st.Addr.(*ssa.IndexAddr); ok {
+					x := strip(ia.X)
+					for d := 0; d < 3; d++ {
+						if sl, ok := x.(*ssa.Slice); ok {
+							x = strip(sl.X)
+						}
+					}
+					if x == ssa.Value(par) {
+						found = true
+					}
+				}
+			}
+			if cl, ok := ins.(*ssa.Call); ok {
+				if n := calleeName(cl.Common()); strings.HasPrefix(n, "sort.") || strings.HasPrefix(n, "slices.Sort") || strings.HasPrefix(n, "slices.Reverse") {
+					for _, a := range cl.Common().Args {
+						if strip(a) == ssa.Value(par) {
+							found = true
+						}
+					}
+				}
+			}
+		})
+		return found
+	}
+	var fromField func(v ssa.Value, d int) (string, bool)
+	fromField = func(v ssa.Value, d int) (string, bool) {
+		if v == nil || d > 6 {
+			return "", false
+		}
+		switch x := v.(type) {
+		case *ssa.Slice:
+			return fromField(x.X, d+1)
+		case *ssa.Phi:
+			for _, e := range x.Edges {
+				if e == ssa.Value(x) {
+					continue
+				}
+				if f, ok := fromField(e, d+1); ok {
+					return f, true
+				}
+			}
+		case *ssa.UnOp:
+			if owner, f, _, ok := fieldOf(x); ok && strings.HasPrefix(owner, "server.") {
+				return owner + "." + f, true
+			}
+		case *ssa.ChangeType:
+			return fromField(x.X, d+1)
+		}
+		return "", false
+	}
+	n, bad := 0, 0
+	for _, fn := range c.P.RepoFuncs(pkgExSrv) {
+		if !inProd(fn) {
+			continue
+		}
+		allInstrs(fn, func(ins ssa.Instruction) {
+			call, ok := ins.(*ssa.Call)
+			if !ok {
+				return
+			}
+			callee := staticCallee(call.Common())
+			inPlaceStd := false
+			if nme := calleeName(call.Common()); strings.HasPrefix(nme, "sort.") || strings.HasPrefix(nme, "slices.Sort") || strings.HasPrefix(nme, "slices.Reverse") {
+				inPlaceStd = true
+			}
+			for i, a := range call.Common().Args {
+				if _, isSlice := a.Type().Underlying().(*types.Slice); !isSlice {
+					continue
+				}
+				if !(inPlaceStd || (callee != nil && inRepo(callee) && writesParam(callee, i))) {
+					continue
+				}
+				n++
+				if f, ok := fromField(a, 0); ok {
+					// mutators of the container itself may sort their own field
+					if recv := fn.Signature.Recv(); recv != nil && typeName(recv.Type()) == f[:strings.LastIndex(f, ".")] && isMutatorName(fn.Name()) {
+						continue
+					}
+					bad++
+					c.bad(rid, fmt.Sprintf("%s/in-place-on-stored:%s", fnName(fn), f), c.P.instrPos(call), fmt.Sprintf("%s is changed in place through a reslice handed to %s: a read operation reorders what is stored", f, calleeName(call.Common())))
+				}
+			}
+		})
+	}
+	c.count("in-place-helper-calls", n)
+	if bad == 0 {
+		c.ok(rid, "no-in-place-on-stored", "", fmt.Sprintf("%d calls of in-place helpers, none on a container's own slice from a read path", n))
+	}
+}
+
+func isMutatorName(n string) bool {
+	for _, p := range []string{"Add", "Set", "Push", "Insert", "Remove", "Rem", "Pop", "Inc", "Del", "Store", "Sort"} {
+		if strings.HasPrefix(n, p) {
+			return true
+		}
+	}
+	return false
+}
+
+// ruleNoStaleFieldSnapshot: R18.e — a container method whose loop changes one of its fields must
+// consult the field as it is now: a copy of the slice header taken before the loop does not see
+// what earlier iterations stored (SADD k a a adds "a" twice when the membership test scans a
+// snapshot taken before the first append).
+func ruleNoStaleFieldSnapshot(c *Ctx, rid string) {
+	c.rule(rid, "in the example store, inside a loop that stores to a field of the receiver, no value of that field loaded before the loop is used: every iteration reads the field as the previous iterations left it")
+	n, bad := 0, 0
+	for _, fn := range c.P.RepoFuncs(pkgExSrv) {
+		if !inProd(fn) || fn.Signature.Recv() == nil || fn.Blocks == nil {
+			continue
+		}
+		for _, l := range naturalLoops(fn) {
+			stored := map[string]bool{}
+			for b := range l.Blocks {
+				for _, ins := range b.Instrs {
+					if st, ok := ins.(*ssa.Store); ok {
+						if fa, ok := st.Addr.(*ssa.FieldAddr); ok {
+							if owner, f, _, ok := fieldOf(fa); ok {
+								if _, isSl := fa.Type().(*types.Pointer).Elem().Underlying().(*types.Slice); isSl {
+									stored[owner+"."+f] = true
+								}
+							}
+						}
+					}
+				}
+			}
+			if len(stored) == 0 {
+				continue
+			}
+			n++
+			c.analysed(fn)
+			allInstrs(fn, func(ins ssa.Instruction) {
+				ld, ok := ins.(*ssa.UnOp)
+				if !ok || l.Blocks[ld.Block()] {
+					return
+				}
+				owner, f, _, ok := fieldOf(ld)
+				if !ok || !stored[owner+"."+f] || !ld.Block().Dominates(l.Header) {
+					return
+				}
+				for _, r := range *ld.Referrers() {
+					if l.Blocks[r.Block()] {
+						if _, isPhi := r.(*ssa.Phi); isPhi {
+							continue
+						}
+						bad++
+						c.bad(rid, fmt.Sprintf("%s/stale-snapshot:%s.%s", fnName(fn), owner, f), c.P.instrPos(ld), fmt.Sprintf("%s.%s is copied before a loop that stores to it and the copy is used inside the loop: elements added by earlier iterations are not seen", owner, f))
+						return
+					}
+				}
+			})
+		}
+	}
+	c.count("field-storing-loops", n)
+	if bad == 0 {
+		c.ok(rid, "no-stale-snapshot", "", fmt.Sprintf("%d loops store to a slice field of their receiver; none uses a copy of it taken before the loop", n))
+	}
+}
+
+// ruleFullPrecisionNumbers: R18.f — sorted-set scores and INCRBYFLOAT operands come back as
+// stored only if they are decoded at full precision on the way in.
+func ruleFullPrecisionNumbers(c *Ctx, rid string) {
+	c.rule(rid, "every strconv.ParseFloat call in the production packages (framework argument decoding and example store) has the constant bit size 64, every strconv.FormatFloat/AppendFloat bit size 64: a score is not rounded to float32 between the client and the store or back")
+	n, bad := 0, 0
+	for _, fn := range c.P.RepoFuncs(modPath) {
+		if !inProd(fn) {
+			continue
+		}
+		allInstrs(fn, func(ins ssa.Instruction) {
+			cc := callCommon(ins)
+			if cc == nil {
+				return
+			}
+			idx := -1
+			switch calleeName(cc) {
+			case "strconv.ParseFloat":
+				idx = 1
+			case "strconv.FormatFloat":
+				idx = 3
+			case "strconv.AppendFloat":
+				idx = 4
+			}
+			if idx < 0 || idx >= len(cc.Args) {
+				return
+			}
+			n++
+			c.analysed(fn)
+			if k, ok := constInt(cc.Args[idx]); !ok || k != 64 {
+				bad++
+				c.bad(rid, fmt.Sprintf("%s/%s-bitsize", fnName(fn), calleeName(cc)), c.P.instrPos(ins), "a floating-point value is converted with a bit size other than 64: scores such as 0.1 or 16777217 do not come back as stored")
+			}
+		})
+	}
+	c.count("float-conversions", n)
+	c.floor("float-conversions", 1)
+	if bad == 0 {
+		c.ok(rid, "float64-everywhere", "", fmt.Sprintf("%d float conversions, all 64-bit", n))
+	}
 }
